@@ -8,7 +8,7 @@ from .native import tree_from_rsym, tree_from_debug
 from .outreader import read_output, render_reflects_tree, Malformed
 from .hb import concrete_tree, OPTS
 
-OPS = ['new', 'add', 'opt', 'rm', 'get', 'merge', 'mult', 'text', 'nest', 'readd', 'dupadd']
+OPS = ['new', 'add', 'opt', 'rm', 'get', 'merge', 'mult', 'text', 'nest', 'readd', 'dupadd', 'addnew']
 NAMES = ['a', 'b', 'c']
 
 class MNode:
@@ -136,6 +136,12 @@ class OpSequence(Harness):
             elif k == 'text':
                 tgt, mt = (C, MC) if (C is not None and m.branch(self.flag[i])) else (P, MP)
                 tgt.f['text'] = Some(RStr('t')); mt.text = True
+            elif k == 'addnew':
+                # create a fresh element and add it in one step (shorter sequences reach states such as position ties after a removal)
+                ch = m.call_fn(E['new'], [RStr(nm), RVec([])])
+                existed = model_find(m, MP, nm)
+                m.call_fn(E['add_unique_child'], [ch], self_val=P)
+                if existed is None: MP.kids.append(['M', MNode(nm)])
             elif k == 'readd':
                 # add an element that came back from remove_child (it still carries a position)
                 if D is not None:
@@ -204,6 +210,7 @@ class OpSequence(Harness):
             elif k == 'text': ops.append({'op': 'text', 'r': 1 if (staged and fl) else 0, 'text': 't'})
             elif k == 'nest':
                 if staged: ops += [{'op': 'new', 'r': 3, 'name': nm}, {'op': 'add', 'r': 1, 'c': 3}]
+            elif k == 'addnew': ops += [{'op': 'new', 'r': 3, 'name': nm}, {'op': 'add', 'r': 0, 'c': 3}]
             elif k == 'readd': ops.append({'op': 'add', 'r': 0, 'c': 2})
             elif k == 'dupadd': ops += [{'op': 'clonechild', 'r': 0, 'name': nm, 'd': 4}, {'op': 'add', 'r': 0, 'c': 4}]
         return {'ops': [{'op': 'new', 'r': 0, 'name': 'r', 'attrs': ['a', 'b'][:a.get('root_attrs', 0)]}] + ops, 'regs': 5}
@@ -233,6 +240,9 @@ class OpSequence(Harness):
             for s in structs:
                 ids = [f['ident'] for f in s['fields']]
                 if len(set(ids)) != len(ids): problems.append('field defined twice in %s: %r' % (s['name'], ids))
+            # the rendered fields must reflect exactly the (native) tree's children, attributes, optionality, multiplicity and text
+            for l, f in render_reflects_tree(structs, nt, OPTS['quick_xml_de']):
+                if f is False or (not isinstance(f, bool) and z3.is_false(z3.simplify(f))): problems.append('rendering does not reflect the tree: ' + l); break
         except Malformed as e: problems.append('malformed output: %s' % e)
         # concrete model run
         mt = concrete_model(c['ops'])
